@@ -13,7 +13,7 @@ func main() {
 	os.Setenv("GOSUMDB", "off")
 	os.Setenv("GOTOOLCHAIN", "local")
 	if len(os.Args) < 2 {
-		fmt.Fprintln(os.Stderr, "usage: vc <dump|list|check> ...")
+		fmt.Fprintln(os.Stderr, "usage: vc <dump|check|replay|loops|silent> ...")
 		os.Exit(2)
 	}
 	switch os.Args[1] {
@@ -21,6 +21,8 @@ func main() {
 		cmdDump(os.Args[2:])
 	case "check":
 		cmdCheck(os.Args[2:])
+	case "replay":
+		cmdReplay(os.Args[2:])
 	case "loops":
 		cmdLoops(os.Args[2:])
 	case "silent":
